@@ -399,6 +399,9 @@ func structuralLoop(h *ssa.BasicBlock) string {
 					if a.Block() != h && a.Block().Dominates(h) {
 						return "counted loop over len(x), x defined before the loop (finite by construction)"
 					}
+					if a.Block() == h && fieldLoadUnchangedInLoop(h, a) {
+						return "counted loop over len(p.f…), a field reloaded in the header that nothing in the loop can store to (no store of that type in the loop or in the package functions it calls)"
+					}
 				}
 			}
 		}
@@ -407,6 +410,97 @@ func structuralLoop(h *ssa.BasicBlock) string {
 		return "counted loop (finite by construction)"
 	}
 	return ""
+}
+
+// fieldLoadUnchangedInLoop: v is a load, in the loop header h, of a field reached from a value defined before the loop through field
+// selections only, and no instruction of the loop — nor of a package function called from it, transitively — stores a value of the
+// loaded type (type-based aliasing: only a store of an identical type can change the field; library code cannot name the type's
+// owner and is assumed not to write it; dynamic calls and calls through function values make the answer "no").
+func fieldLoadUnchangedInLoop(h *ssa.BasicBlock, v ssa.Instruction) bool {
+	ld, ok := v.(*ssa.UnOp)
+	if !ok || ld.Op != token.MUL {
+		return false
+	}
+	addr := ld.X
+	for {
+		fa, ok := addr.(*ssa.FieldAddr)
+		if !ok {
+			break
+		}
+		addr = fa.X
+	}
+	if addr == ld.X {
+		return false // not a field
+	}
+	switch b := addr.(type) {
+	case *ssa.Parameter:
+	case ssa.Instruction:
+		if b.Block() == h || !b.Block().Dominates(h) {
+			return false
+		}
+	default:
+		return false
+	}
+	t := ld.Type()
+	// the loop: blocks dominated by h from which h is reachable
+	body := map[*ssa.BasicBlock]bool{}
+	var back []*ssa.BasicBlock
+	for _, p := range h.Preds {
+		if h.Dominates(p) {
+			back = append(back, p)
+		}
+	}
+	for len(back) > 0 {
+		b := back[len(back)-1]
+		back = back[:len(back)-1]
+		if body[b] {
+			continue
+		}
+		body[b] = true
+		if b == h {
+			continue
+		}
+		back = append(back, b.Preds...)
+	}
+	body[h] = true
+	seen := map[*ssa.Function]bool{}
+	var clean func(blocks []*ssa.BasicBlock, inBody func(*ssa.BasicBlock) bool) bool
+	clean = func(blocks []*ssa.BasicBlock, inBody func(*ssa.BasicBlock) bool) bool {
+		for _, b := range blocks {
+			if !inBody(b) {
+				continue
+			}
+			for _, in := range b.Instrs {
+				switch x := in.(type) {
+				case *ssa.Store:
+					if types.Identical(x.Val.Type(), t) {
+						return false
+					}
+				case ssa.CallInstruction:
+					cc := x.Common()
+					if _, isB := cc.Value.(*ssa.Builtin); isB {
+						continue
+					}
+					cal := cc.StaticCallee()
+					if cal == nil {
+						return false
+					}
+					if cal.Pkg != h.Parent().Pkg || len(cal.Blocks) == 0 {
+						continue // library code
+					}
+					if seen[cal] {
+						continue
+					}
+					seen[cal] = true
+					if !clean(cal.Blocks, func(*ssa.BasicBlock) bool { return true }) {
+						return false
+					}
+				}
+			}
+		}
+		return true
+	}
+	return clean(h.Parent().Blocks, func(b *ssa.BasicBlock) bool { return body[b] })
 }
 
 // Call records progress events: a consuming read of at least one byte from the reader.
